@@ -37,6 +37,7 @@ theorem core_selection (O : Oracle) (hO : O.Certified) (tie : PTerm → Bool) (r
   · injection h with h; subst h; exact List.Sublist.refl _
   split at h
   · injection h with h; subst h; exact List.Sublist.refl _
+  split at h; · cases h
   · obtain ⟨s, h1, h2, _⟩ := reduce_irredundant O hO tie _ _ _ _ h
     simp only [List.nil_append] at h1; subst h1; exact h2
 
@@ -49,15 +50,28 @@ theorem core_equiv (O : Oracle) (hO : O.Certified) (tie : PTerm → Bool) (rows 
   · injection h with h; subst h; rfl
   split at h
   · injection h with h; subst h; rfl
+  split at h; · cases h
   · simpa using reduce_equiv O hO tie _ _ _ _ h v (holds_helper ctx _ v hc)
 
-theorem core_error (O : Oracle) (hO : O.Certified) (tie : PTerm → Bool) (rows ctx : TL) (e : Err)
+theorem core_error (O : Oracle) (hO : O.Certified) (tie : PTerm → Bool) (rows ctx : TL) (hp : rows.Proper) (e : Err)
     (h : simplifyCore O tie rows ctx = .error e) :
     (e = .valueError ∧ ¬ ∃ v, TL.holds ctx v ∧ TL.holds rows v) ∨ e = .oracleStuck := by
   unfold simplifyCore at h
   simp only at h
   split at h; · cases h
+  rename_i hr0
   split at h; · cases h
+  split at h
+  · -- no variable at all: impossible for proper, non-empty rows
+    rename_i hm0
+    exfalso
+    have hrne : rows ≠ [] := fun e => hr0 (by simp [e])
+    have hv := TL.Proper.vars_ne_nil rows hp hrne
+    cases hrv : TL.vars rows with
+    | nil => exact hv hrv
+    | cons x xs =>
+      have : x ∈ Gen.list_union (TL.vars rows) (TL.vars ctx) := by simp [hrv]
+      rw [List.length_eq_zero_iff.mp hm0] at this; cases this
   rcases reduce_error_kind O tie _ _ _ _ h with he | he
   · left
     refine ⟨he, ?_⟩
@@ -99,6 +113,7 @@ theorem core_irredundant (O : Oracle) (hO : O.Certified) (tie : PTerm → Bool) 
     obtain ⟨v, hv⟩ := PTerm.Proper.exists_violation t (hp t (by rw [hr]; simp))
     refine ⟨v, by rw [hctx]; exact TL.holds_nil v, by simpa using TL.holds_nil v, ?_⟩
     unfold PTerm.holds at hv; linarith
+  split at h; · cases h
   · obtain ⟨s, h1, _, h3⟩ := reduce_irredundant O hO tie _ _ _ _ h
     simp only [List.nil_append] at h1; subst h1
     obtain ⟨v, hv1, hv2, hv3⟩ := h3 r1 t r2 hr
@@ -130,17 +145,19 @@ theorem simplify_equiv (O : Oracle) (hO : O.Certified) (tie : PTerm → Bool) (l
   | none => exact core_equiv O hO tie _ _ _ h v (TL.holds_nil v)
   | some g => rw [core_equiv O hO tie _ _ _ h v hΓ]; exact holds_list_diff l g v hΓ
 
-/-- `ValueError` only when the constraints are infeasible in the context -/
-theorem simplify_error_infeasible (O : Oracle) (hO : O.Certified) (tie : PTerm → Bool) (l : TL) (Γ : Option TL) (e : Err)
+/-- `ValueError` only when the constraints are infeasible in the context (terms mention at least one variable: for
+    variable-free rows the solver rejects the zero-column matrix with a ValueError of its own) -/
+theorem simplify_error_infeasible (O : Oracle) (hO : O.Certified) (tie : PTerm → Bool) (l : TL) (hp : l.Proper) (Γ : Option TL) (e : Err)
     (h : simplify O tie l Γ = .error e) :
     (e = .valueError ∧ ¬ ∃ v, TL.holds (ctxOf Γ) v ∧ TL.holds l v) ∨ e = .oracleStuck := by
   cases Γ with
   | none =>
-    rcases core_error O hO tie _ _ _ h with ⟨h1, h2⟩ | h1
+    rcases core_error O hO tie _ _ hp _ h with ⟨h1, h2⟩ | h1
     · exact Or.inl ⟨h1, fun ⟨v, _, hl⟩ => h2 ⟨v, TL.holds_nil v, hl⟩⟩
     · exact Or.inr h1
   | some g =>
-    rcases core_error O hO tie _ _ _ h with ⟨h1, h2⟩ | h1
+    have hp' : TL.Proper (Gen.list_diff l g) := fun t ht => hp t ((Gen.mem_list_diff l g t).mp ht).1
+    rcases core_error O hO tie _ _ hp' _ h with ⟨h1, h2⟩ | h1
     · exact Or.inl ⟨h1, fun ⟨v, hg, hl⟩ => h2 ⟨v, hg, (holds_list_diff l g v hg).mpr hl⟩⟩
     · exact Or.inr h1
 
